@@ -1,6 +1,7 @@
 """C10 — schema documents are accepted exactly when they obey the schema language rules"""
 import copy
 import io
+from xml.sax.saxutils import quoteattr
 
 from .. import cfggen, cfgrun, cfgstream, core, elabrun, pkggen, schemafam as F
 from ..sexp import enc
@@ -13,7 +14,13 @@ RULE = ("rule-satisfying documents rendered from the generated schema family (mu
         "violating documents and accepted controls for the document element, prefix, second <example>, <import> attributes, "
         "<multikey default>, top-level items of components, <schema extends> of conflicting bases; every spelling of a default "
         "('default' attribute, unkeyed / keyed <default> elements and their combinations) on <key> / <multikey>, named / wildcard, "
-        "required or not, at the top level, in plain and derived section types and in components. "
+        "required or not, at the top level, in plain and derived section types and in components; two children of one "
+        "container (schema, section type, the first one inherited from a base or a base's base, section types of components) that "
+        "come to hold one attribute name in every ordered pair of the ways to take one (explicit attribute on a key / multikey / "
+        "section under another or a wildcard name, the attribute derived from the child's own name), with controls; extends= / "
+        "implements= / type= naming their type by well-formed names in any letter case (accepted) and by ill-formed names made "
+        "from the name meant (blanks, several names, illegal or non-ASCII characters, non-ASCII relatives of its letters under "
+        "Unicode case mapping / compatibility: KELVIN SIGN, LONG S, dotless / dotted I, fullwidth forms). "
         "non-trivial = a document with >= 1 section type; distinct by document text")
 
 
@@ -505,7 +512,7 @@ def component_docs(rng, pk):
         with open(os.path.join(d, "__init__.py"), "w") as f:
             f.write("# generated\n")
         text = body if raw else "<component>\n%s</component>\n" % body
-        with open(os.path.join(d, "component.xml"), "w") as f:
+        with open(os.path.join(d, "component.xml"), "w", encoding="utf-8") as f:
             f.write(text)
         pk.names.append(name)
         return name, text
@@ -544,6 +551,33 @@ def component_docs(rng, pk):
                           "<sectiontype name='cdf9' extends='nty9' keytype='identifier'>%s</sectiontype>"])
         sites.append(("component-default-spelling:%s%s%s:%s" % (el, "+" if wild else "", "!" if req else "", sp),
                       "<component>\n  %s\n</component>\n" % (how % elem), want))
+    # two children of one section type of a component holding one attribute name (the first possibly inherited)
+    acases = attribute_cases()
+    for i, j in rng.sample(acases, 24):
+        x, nm = rng.choice([("col9", "col9"), ("col9", "COL9"), ("co_l9", "co-l9")])
+        for rule, (x2, nm2), want in (("attribute-collision", (x, nm), "reject"), ("attribute-collision-control", ("dif9", "dif9"), "ok")):
+            first, second = attribute_takers(x, nm, "oth9a")[i], attribute_takers(x2, nm2, "oth9b")[j]
+            how = rng.choice(["<sectiontype name='cac9'>%s%s</sectiontype>",
+                              "<sectiontype name='cab9'>%s</sectiontype>\n  <sectiontype name='cac9' extends='cab9'>%s</sectiontype>"])
+            sites.append(("component-%s:%s>%s" % (rule, first[0], second[0]),
+                          "<component>\n  %s\n</component>\n" % (how % (first[1], second[1])), want))
+    # extends= / implements= / type= inside a component, naming a type of the component or of the importing schema
+    for tname in rng.sample(REF_NAMES, 3):
+        refs = [("well-formed", tname.upper(), "ok")] + [("ill-formed:" + k, r, "reject" if r.strip() else None)
+                                                         for k, r in ill_formed_references(rng, tname)]
+        for kind, ref, want in refs[:1] + rng.sample(refs[1:], 4) + rng.sample([r for r in refs if r[0] == "ill-formed:relative"], 2):
+            site = rng.choice(["extends", "implements", "type"])
+            local = rng.random() < 0.5 and tname != "nty9"
+            tdef = ("<abstracttype name='%s'/>" if site == "implements" else "<sectiontype name='%s'/>") % tname
+            user = {"extends": "<sectiontype name='ctr9' extends=%s/>", "implements": "<sectiontype name='ctr9' implements=%s/>",
+                    "type": "<sectiontype name='ctr9'><section type=%s name='*' attribute='cts9'/></sectiontype>"}[site] % quoteattr(ref)
+            if site == "type" and kind == "ill-formed:relative":
+                want = None
+            text = "<component>\n  %s%s\n</component>\n" % ((tdef + "\n  ") if local else "", user)
+            name, text = comp(text, raw=True)
+            out.append(("component-type-reference:%s:%s" % (site, kind),
+                        "<schema>\n%s%s  <import package='%s'/>\n</schema>\n" % (NEST_TYPE, "" if local else "  %s\n" % tdef, name), want,
+                        {"component.xml": text, "case": "%s=%r for type %r" % (site, ref, tname)}))
     for rule, text, want in sites:
         name, text = comp(text, raw=True)
         out.append((rule, "<schema>\n%s  <import package='%s'/>\n</schema>\n" % (NEST_TYPE, name), want, {"component.xml": text}))
@@ -566,6 +600,204 @@ def component_docs(rng, pk):
                     {"component.xml (first import)": t1, "component.xml (second import)": t2}))
         n3, t3 = comp(first + second)
         out.append((rule, "<schema>\n  <import package='%s'/>\n</schema>\n" % n3, want, {"component.xml": t3}))
+    return out
+
+
+# ------------------------------------------------------------------ two children of one container holding one attribute name
+def attribute_takers(x, nm, other):
+    """every way a child of a container comes to hold the attribute name x -> [(label, element, key-name slot)].
+    nm: a name whose derived attribute is x (x itself, another letter case, '-' for '_'); other: a fresh name.  The slot
+    says which entry of the container's NAME map the child takes (two children in one slot break 'unique key names',
+    another rule): 'nm', the fresh name, '+' for a wildcard key, None for a wildcard section"""
+    sect = "type='nty9'"
+    return [
+        ("key:own-name", "<key name='%s'/>" % nm, "nm"),
+        ("key:own-name+attribute", "<key name='%s' attribute='%s'/>" % (nm, x), "nm"),
+        ("multikey:own-name", "<multikey name='%s'/>" % nm, "nm"),
+        ("section:own-name", "<section %s name='%s'/>" % (sect, nm), "nm"),
+        ("key:other-name", "<key name='%s' attribute='%s'/>" % (other, x), other),
+        ("multikey:other-name", "<multikey name='%s' attribute='%s'/>" % (other, x), other),
+        ("section:other-name", "<section %s name='%s' attribute='%s'/>" % (sect, other, x), other),
+        ("key:+", "<key name='+' attribute='%s'/>" % x, "+"),
+        ("multikey:+", "<multikey name='+' attribute='%s'/>" % x, "+"),
+        ("section:*", "<section %s name='*' attribute='%s'/>" % (sect, x), None),
+        ("section:+", "<section %s name='+' attribute='%s'/>" % (sect, x), None),
+        ("multisection:*", "<multisection %s name='*' attribute='%s'/>" % (sect, x), None),
+        ("multisection:+", "<multisection %s name='+' attribute='%s'/>" % (sect, x), None),
+    ]
+
+
+ATTR_CONTAINERS = ("schema", "sectiontype", "derived", "derived-twice")
+
+
+def attribute_cases():
+    """(i, j): ordered pairs of takers (the FIRST child in document order, the LATER one) that do not share a key-name slot"""
+    ts = attribute_takers("x", "x", "o")
+    return [(i, j) for i in range(len(ts)) for j in range(len(ts))
+            if not (ts[i][2] is not None and ts[i][2] == ts[j][2])]
+
+
+def attribute_collision_docs(rng, sd, cases, containers=ATTR_CONTAINERS, controls=True):
+    """(rule, document, expected verdict, case): 'unique attribute names per container, inherited ones included' for every
+    way two children can come to hold one attribute name - an explicit attribute='x' on a key / multikey / section under
+    another name or under a wildcard name, the attribute derived from the child's own name (with or without stating it) -
+    in both orders, as children of the schema, of a section type, and with the first child inherited from the base (or the
+    base's base) of the type that holds the later one.  Control: the later child takes another attribute name (accepted)"""
+    d = copy.deepcopy(sd)
+    d.children = [c for c in d.children if not (c.kind == "key" and c.name == "+")]
+    top = _inject_first(F.render_xml(d), NEST_TYPE)
+    host = F.render_xml(sd)
+    out = []
+    for i, j in cases:
+        for con in containers:
+            kt = (sd.keytype or "basic-key") if con == "schema" else "basic-key"
+            # the attribute name and a name it is derived from: the lower-cased name with '_' for '-'
+            x, nm = rng.choice([("col9", "col9"), ("col9", "Col9"), ("col9", "COL9")] +
+                               ([("co_l9", "co-l9"), ("c_ol_9", "C-ol-9")] if kt != "identifier" else [("co_l9", "co_l9")]))
+            first = attribute_takers(x, nm, "oth9a")[i]
+            for rule, (x2, nm2), want in [("attribute-collision", (x, nm), "reject")] + \
+                    ([("attribute-collision-control", ("dif9", "dif9"), "ok")] if controls else []):
+                second = attribute_takers(x2, nm2, "oth9b")[j]
+                fill = rng.choice(["", "", "<key name='fil9'/>", "<multikey name='fil9' attribute='fil8'/>"])
+                if con == "schema":
+                    doc = _inject_last(top, "  %s%s%s\n" % (first[1], fill, second[1]))
+                else:
+                    if con == "sectiontype":
+                        types = "<sectiontype name='act9'>%s%s%s</sectiontype>" % (first[1], fill, second[1])
+                    elif con == "derived":
+                        types = "<sectiontype name='acb9'>%s</sectiontype><sectiontype name='act9' extends='acb9'>%s%s</sectiontype>" % (
+                            first[1], fill, second[1])
+                    else:
+                        types = ("<sectiontype name='acb9'>%s</sectiontype><sectiontype name='acm9' extends='acb9'>%s</sectiontype>"
+                                 "<sectiontype name='act9' extends='acm9'>%s</sectiontype>" % (first[1], fill, second[1]))
+                    use = "  <section type='act9' name='*' attribute='acs9'/>\n" if rng.random() < 0.5 else ""
+                    doc = _inject_last(_inject_first(host, NEST_TYPE + "  %s\n" % types), use)
+                out.append(("%s:%s>%s" % (rule, first[0], second[0]), doc, want, "%s/%s then %s" % (con, first[0], second[0])))
+    return out
+
+
+def attribute_collision_edits(rng, sd):
+    """the same rule against the children the family's own containers already have: a child that holds an explicit attribute
+    name (attribute='at1' on a key, 'map0' on a wildcard key, the attribute of a section), and LATER - in the same container
+    or in a type derived from it - a key / multikey whose own name is that attribute name.  -> [(rule, SchemaD)], to be refused"""
+    out = []
+    cons = _types(sd)
+    for kind, c in _containers(sd):
+        takers = [ch for ch in c.children if ch.attr and ch.attr == ch.attr.lower() and ch.attr.isidentifier()
+                  and not any(o.kind == "key" and o.name.lower() == ch.attr for o in c.children)]
+        if not takers:
+            continue
+        ch = rng.choice(takers)
+        heirs = [t for t in cons if kind == "type" and t.extends == c.name]
+        d = copy.deepcopy(sd)
+        if heirs and rng.random() < 0.6:
+            heir = rng.choice(heirs).name
+            tgt = [t for t in _types(d) if t.name == heir][0]
+            rule = "attribute-collision-own-name-inherited"
+        else:
+            tgt = d if kind == "schema" else [t for t in _types(d) if t.name == c.name][0]
+            rule = "attribute-collision-own-name"
+        late = F.KeyD(ch.attr, "string", multi=rng.random() < 0.3, attr=rng.choice([None, None, ch.attr]))
+        tgt.children.append(late)
+        out.append((rule, d))
+    return rng.sample(out, min(len(out), 2))
+
+
+# ------------------------------------------------------------------ references to types: extends= / implements= / type=
+# non-ASCII characters that a Unicode case mapping or compatibility normalisation sends to an ASCII letter: a name that
+# holds one is not a well-formed type name, although str.lower() / upper() / casefold() / NFKC of it may be one
+_RELATIVES = {"k": "\u212a", "K": "\u212a", "s": "\u017f", "S": "\u017f", "i": "\u0131", "I": "\u0130"}     # KELVIN SIGN, LONG S, DOTLESS I, I WITH DOT ABOVE
+
+
+def _relative(rng, c):
+    """a non-ASCII relative of the ASCII letter c"""
+    full = chr(ord(c) - ord("a") + 0xFF41) if c.islower() else chr(ord(c) - ord("A") + 0xFF21)      # fullwidth forms
+    return rng.choice([_RELATIVES[c], _RELATIVES[c], full]) if c in _RELATIVES else full
+
+
+def ill_formed_references(rng, name):
+    """[(kind, reference)]: values that are not well-formed type names (an ASCII letter followed by ASCII letters, digits,
+    '-', '.', '_'), each made from the name of an existing type.  'relative': one or all of its letters replaced by a
+    non-ASCII relative, in the name as written and in its upper-cased form"""
+    out = [("empty", ""), ("blank", " "), ("leading-blank", " " + name), ("trailing-blank", name + " "),
+           ("two-names", name + " " + name), ("digit-first", "1" + name), ("hyphen-first", "-" + name),
+           ("illegal-char", name + rng.choice("/+:,*$")), ("illegal-char", name[:1] + rng.choice("/+: ") + name[1:]),
+           ("non-ascii-letter", name + rng.choice("\u00e9\u00df\u03ba")), ("non-ascii-letter", rng.choice("\u00e9\u03ba") + name)]
+    for base in (name, name.upper(), cfggen._case_variant(rng, name)):
+        letters = [p for p, c in enumerate(base) if c.isascii() and c.isalpha()]
+        special = [p for p in letters if base[p] in _RELATIVES]
+        for p in special:                                                   # every letter that has a case-mapping relative
+            out.append(("relative", base[:p] + _RELATIVES[base[p]] + base[p + 1:]))
+        if special:
+            out.append(("relative", "".join(_RELATIVES.get(c, c) for c in base)))
+        p = rng.choice(letters)
+        out.append(("relative", base[:p] + _relative(rng, base[p]) + base[p + 1:]))
+    seen, res = {name}, []
+    for k, r in out:
+        if r not in seen:
+            seen.add(r)
+            res.append((k, r))
+    return res
+
+
+REF_NAMES = ("sink9", "k9", "back-end9", "task.kind9", "Is_s9", "plain9")
+REF_SITES = ("extends", "implements", "extends+implements", "section-type", "multisection-type", "section-type-in-type")
+
+
+def type_reference_docs(rng, sd, names, sites=REF_SITES, per_name=None):
+    """(rule, document, expected verdict or None, case): 'extends' naming a concrete type, 'implements' an abstract one,
+    sections naming their type - through well-formed names in any letter case (accepted) and through every kind of
+    ill-formed name made from the name of the type meant (refused: such a value names no type of the schema language).
+    For type= on <section> / <multisection> the 'relative' references are explored without an expectation stated here:
+    they are judged by the comparison with the Lean model (whose look-up lower-cases like str.lower)"""
+    host = F.render_xml(sd)
+    out = []
+    for name in names:
+        good = [("as-written", name), ("upper", name.upper()), ("title", name.title()), ("mixed", cfggen._case_variant(rng, name))]
+        bad = ill_formed_references(rng, name)
+        if per_name is not None:
+            good = rng.sample(good, 1)
+            bad = rng.sample(bad, min(len(bad), per_name)) + rng.sample([b for b in bad if b[0] == "relative"], 1)
+        for site in sites:
+            for kind, ref in [("well-formed:" + k, r) for k, r in good] + [("ill-formed:" + k, r) for k, r in bad]:
+                q = quoteattr(ref)
+                own = rng.choice(["", "<key name='b9'/>"])
+                if site == "extends":
+                    types = "<sectiontype name='%s'><key name='a9'/></sectiontype>\n  <sectiontype name='trd9' extends=%s>%s</sectiontype>" % (name, q, own)
+                    use = "<section type='trd9' name='*' attribute='tru9'/>"
+                elif site == "implements":
+                    types = "<abstracttype name='%s'/>\n  <sectiontype name='trd9' implements=%s>%s</sectiontype>" % (name, q, own)
+                    use = "<section type='%s' name='*' attribute='tru9'/>" % name
+                elif site == "extends+implements":
+                    # one of the two references is the one under test, the other is well formed
+                    if rng.random() < 0.5:
+                        e, m, bname, aname = q, quoteattr("tra9"), name, "tra9"
+                    else:
+                        e, m, bname, aname = quoteattr("trb9"), q, "trb9", name
+                    types = ("<abstracttype name='%s'/>\n  <sectiontype name='%s'/>\n  <sectiontype name='trd9' extends=%s implements=%s>%s</sectiontype>"
+                             % (aname, bname, e, m, own))
+                    use = "<multisection type='%s' name='+' attribute='tru9'/>" % aname
+                else:
+                    types = "<sectiontype name='%s'>%s</sectiontype>" % (name, own)
+                    el = "<multisection type=%s name='*' attribute='tru9'/>" % q if site == "multisection-type" else \
+                        rng.choice(["<section type=%s name='trs9'/>", "<section type=%s name='*' attribute='tru9'/>"]) % q
+                    if site == "section-type-in-type":
+                        types += "\n  <sectiontype name='tro9'>%s</sectiontype>" % el
+                        use = "<section type='tro9' name='tro9'/>"
+                    else:
+                        use = el
+                doc = _inject_first(host, "  %s\n" % types)
+                if site in ("section-type", "multisection-type") or rng.random() < 0.5:
+                    doc = _inject_last(doc, "  %s\n" % use)
+                if kind.startswith("well-formed"):
+                    want = "ok"
+                elif kind == "ill-formed:relative" and "type" in site:
+                    want = None
+                elif kind in ("ill-formed:empty", "ill-formed:blank") and "type" not in site:
+                    want = None             # an empty attribute: absent or ill-formed? the model decides (refused on the pinned tree)
+                else:
+                    want = "reject"
+                out.append(("type-reference:%s:%s" % (site, kind), doc, want, "%s=%r for type %r" % (site, ref, name)))
     return out
 
 
@@ -793,6 +1025,15 @@ def run(ctx):
     for rule, x, want, case in default_docs(rng, minimal, dcases):
         all_docs.append(x)
         judge(ctx, rule, x, want, {"case": case})
+    # two children of one container holding one attribute name: every ordered pair of the ways to take a name, in every
+    # kind of container; references to types (extends= / implements= / type=) by well-formed and ill-formed names
+    acases = attribute_cases()
+    for rule, x, want, case in attribute_collision_docs(rng, minimal, acases):
+        all_docs.append(x)
+        judge(ctx, rule, x, want, {"case": case})
+    for rule, x, want, case in type_reference_docs(rng, minimal, REF_NAMES):
+        all_docs.append(x)
+        judge(ctx, rule, x, want, {"case": case})
     # ... then inside the documents of the family
     for i in range(n):
         sd = cfggen.gen_schema(rng, handlers=rng.random() < 0.3)
@@ -806,7 +1047,7 @@ def run(ctx):
             continue
         if enc(F.elaborate(sd)) != enc(F.digest(r[1])):
             ctx.disagree("schema-digest", {"schema_xml": xml}, "digest", "expected elaboration")
-        es = edits(rng, sd) + derived_duplicates(rng, sd, ctx.thorough())
+        es = edits(rng, sd) + derived_duplicates(rng, sd, ctx.thorough()) + attribute_collision_edits(rng, sd)
         for rule, doc in es:
             x = doc if isinstance(doc, str) else F.render_xml(doc)
             all_docs.append(x)
@@ -838,6 +1079,15 @@ def run(ctx):
         full = ctx.thorough() and i % 20 == 0
         for rule, x, want, case in default_docs(rng, sd, dcases if full else rng.sample(dcases, 6),
                                                 DEFAULT_CONTAINERS if full else (rng.choice(DEFAULT_CONTAINERS),)):
+            all_docs.append(x)
+            judge(ctx, rule, x, want, {"case": case})
+        # one attribute name taken twice, and references to types by ill-formed names: some cases of the two tables
+        for rule, x, want, case in attribute_collision_docs(rng, sd, acases if full else rng.sample(acases, 5),
+                                                            ATTR_CONTAINERS if full else (rng.choice(ATTR_CONTAINERS),)):
+            all_docs.append(x)
+            judge(ctx, rule, x, want, {"case": case})
+        for rule, x, want, case in type_reference_docs(rng, sd, REF_NAMES if full else rng.sample(REF_NAMES, 1),
+                                                       REF_SITES if full else rng.sample(REF_SITES, 2), None if full else 3):
             all_docs.append(x)
             judge(ctx, rule, x, want, {"case": case})
     _import_src_rules(ctx)
